@@ -541,7 +541,7 @@ func (c *CreateTableStatement) Format(opts FormatOptions) string {
 	}
 
 	for _, opt := range c.Options {
-		fmt.Fprintf(sb, " %s=%s", opt.Name, opt.Value)
+		fmt.Fprintf(sb, " %s=%s", opt.Name, safeName(opt.Value))
 	}
 
 	if opts.AddSemicolon {
@@ -666,7 +666,7 @@ func (c *CreateIndexStatement) Format(opts FormatOptions) string {
 		sb.WriteString(" ")
 		sb.WriteString(f.kw("USING"))
 		sb.WriteString(" ")
-		sb.WriteString(c.Using)
+		sb.WriteString(safeName(c.Using))
 	}
 
 	sb.WriteString(" (")
@@ -787,7 +787,7 @@ func (c *CreateMaterializedViewStatement) Format(opts FormatOptions) string {
 		sb.WriteString(" ")
 		sb.WriteString(f.kw("TABLESPACE"))
 		sb.WriteString(" ")
-		sb.WriteString(c.Tablespace)
+		sb.WriteString(safeName(c.Tablespace))
 	}
 
 	sb.WriteString(" ")
